@@ -114,6 +114,9 @@ pub trait SimColor: PixelColor + core::fmt::Debug + Send + Sync + 'static {
     /// Build an `ImageRaw<Self, order>` over `data` and hand it to the visitor.
     /// None: `ImageRaw::new` rejected the buffer.
     fn with_image<V: ImageVisitor<Self>>(data: &[u8], w: u32, h: u32, be: bool, v: &mut V) -> Option<V::Out>;
+    /// `ImageRaw::new_const` is the panicking twin of `ImageRaw::new`: it must return the same image
+    /// when `new` accepts the buffer and panic when `new` rejects it. Err(description) otherwise.
+    fn new_const_agrees(data: &[u8], w: u32, h: u32, be: bool) -> Result<(), String>;
 }
 
 macro_rules! with_image_impl {
@@ -130,6 +133,29 @@ macro_rules! with_image_impl {
     };
 }
 
+macro_rules! new_const_impl {
+    ($t:ty) => {
+        fn new_const_agrees(data: &[u8], w: u32, h: u32, be: bool) -> Result<(), String> {
+            fn go<O: embedded_graphics::pixelcolor::raw::DataOrder + PartialEq>(data: &[u8], size: Size) -> Result<(), String> {
+                let by_new = ImageRaw::<$t, O>::new(data, size);
+                let by_const = crate::runner::guarded(|| ImageRaw::<$t, O>::new_const(data, size));
+                match (by_new, by_const) {
+                    (Ok(a), Ok(b)) if a == b => Ok(()),
+                    (Ok(_), Ok(_)) => Err("ImageRaw::new_const returned a different image than ImageRaw::new".into()),
+                    (Ok(_), Err(p)) => Err(format!("ImageRaw::new accepted the buffer but new_const panicked: {}", p)),
+                    (Err(_), Ok(_)) => Err("ImageRaw::new rejected the buffer but new_const accepted it".into()),
+                    (Err(_), Err(_)) => Ok(()),
+                }
+            }
+            if be {
+                go::<BigEndianLsb0>(data, Size::new(w, h))
+            } else {
+                go::<LittleEndianMsb0>(data, Size::new(w, h))
+            }
+        }
+    };
+}
+
 macro_rules! sim_color {
     ($t:ty, $kind:ident, $down:ty) => {
         impl SimColor for $t {
@@ -139,6 +165,7 @@ macro_rules! sim_color {
                 self.into_storage() as u32
             }
             with_image_impl!($t);
+            new_const_impl!($t);
         }
     };
 }
@@ -161,6 +188,7 @@ impl SimColor for C32 {
         self.0
     }
     with_image_impl!(C32);
+    new_const_impl!(C32);
 }
 
 /// Conversion of a raw colour of `Down(kind)` to a raw colour of `kind` through the library's `Into`.
